@@ -6,7 +6,8 @@ prop,n,caught,outcome=sys.argv[1:5]
 strength=sys.argv[5] if len(sys.argv)>5 else ""
 import os as _os
 rnd=_os.environ.get("SEED_ROUND","")
-src=f"/tmp/seed{rnd}-{prop}/SEED/{n}"; dst=f"/verif/seeded/{prop}-{int(n)+ (2 if rnd=='2' else 0)}"
+off={'':0,'2':2,'3':4}[rnd]
+src=f"/tmp/seed{rnd}-{prop}/SEED/{n}"; dst=f"/verif/seeded/{prop}-{int(n)+off}"
 if os.path.exists(dst): shutil.rmtree(dst)
 os.makedirs(dst)
 shutil.copy(f"{src}/patch.diff",dst)
@@ -19,7 +20,7 @@ notes=open(f"{src}/notes.md").read() if os.path.exists(f"{src}/notes.md") else "
 files=re.findall(r"^\+\+\+ b/(\S+)",open(f"{src}/patch.diff").read(),re.M)
 meta={
  "property":prop,
- "author":"independent sub-agent given only the property text and its own scratch worktree",
+ "author":"independent sub-agent given only the property text and its own scratch worktree" + (f" (round {rnd}: also told which code sites earlier authors had used, and asked for others)" if rnd else ""),
  "files_changed":files,
  "needs_to_manifest":"see notes.md (author's description of the specific interleaving / input / sequence required)",
  "independently_confirmed":{
